@@ -180,6 +180,10 @@ func (pr *PolicyResolver) OnPolicyMatchStopped(policyKey model.PolicyKey, endpoi
 	// This policy is not active anymore, we no longer need to track it for sorting.
 	if !pr.policyIDToEndpointIDs.ContainsKey(policyKey) {
 		pr.policySorter.UpdatePolicy(policyKey, nil)
+		// If the policy started matching since the last flush, its addition to the sorter is
+		// still pending; drop that too or the flush would add a policy that nothing matches
+		// (and that is then never updated, leaving stale tier/order if it matches again later).
+		pr.pendingPolicyUpdates.Discard(policyKey)
 	}
 
 	pr.dirtyEndpoints.Add(endpointKey)
